@@ -19,7 +19,11 @@ PCT = {"relname": "100%% pure %(arch)s", "relshort": "P%", "relver": "22", "bpna
 IDS = [{"A": "Server", "B": "Client", "S": "Server", "o": "optional", "T": "Tools", "h": "HighAvailability", "g": "Extras"},
        {"A": "a", "B": "B9", "S": "Z", "o": "optional", "T": "t", "h": "H", "g": "0"},
        # a top-level variant and a child below another one share their id (HA next to Server-HA): UIDs stay distinct
-       {"A": "Server", "B": "HA", "S": "S", "o": "optional", "T": "T", "h": "HA", "g": "HA"}]
+       {"A": "Server", "B": "HA", "S": "S", "o": "optional", "T": "T", "h": "HA", "g": "HA"},
+       # ... and the child's UID sorts BEFORE the top-level variant of that id (Base-Server < Server)
+       {"A": "Base", "B": "Server", "S": "S", "o": "optional", "T": "T", "h": "Server", "g": "Server"},
+       # names ending in numbers of different lengths: "alphabetically first" is plain text order (Layer10 < Layer9)
+       {"A": "Layer9", "B": "Layer10", "S": "Layer", "o": "optional", "T": "2", "h": "H10", "g": "H9"}]
 ARCHS = [("x86_64", "xen", "lpae"), ("ppc64le", "p8", "b"), ("aarch64", "X", "y"), ("i386", "xen-pv", "xen"), ("armhfp", "omap", "tegra"),
          ("ppc", "ppc64", "ppc64le"), ("nosrc", "a", "b")]                      # the tree arch is a substring of its other platforms   # a platform name may contain dashes
 IMG = {"boot": "images/boot.iso", "kernel": "images/pxeboot/vmlinuz", "xenkernel": "images/pxeboot/vmlinuz-xen", "initrd": "images/Initrd.IMG",
